@@ -282,7 +282,7 @@ func deviation(site string, fd, n int) string {
 var errnoByName = map[string]real.Errno{
 	"EAGAIN": real.EAGAIN, "EINTR": real.EINTR, "EPIPE": real.EPIPE, "ECONNRESET": real.ECONNRESET, "ETIMEDOUT": real.ETIMEDOUT,
 	"ECONNABORTED": real.ECONNABORTED, "ENOMEM": real.ENOMEM, "ENOENT": real.ENOENT, "EBADF": real.EBADF, "ECONNREFUSED": real.ECONNREFUSED,
-	"EMFILE": real.EMFILE, "ENOBUFS": real.ENOBUFS, "EPERM": real.EPERM, "EIO": real.EIO,
+	"EMFILE": real.EMFILE, "ENOBUFS": real.ENOBUFS, "EPERM": real.EPERM, "EIO": real.EIO, "EADDRINUSE": real.EADDRINUSE,
 }
 
 //go:norace
@@ -508,6 +508,10 @@ func Socket(domain, typ, proto int) (fd int, err error) {
 		return real.Socket(domain, typ, proto)
 	}
 	sched.Point("socket", 0)
+	if e, ok := errnoByName[deviation("socket", -1, 0)]; ok {
+		L.log("socket", -1, domain, -1, e, "fw", real.ErrnoName(e))
+		return -1, e
+	}
 	fd, err = real.Socket(domain, typ, proto)
 	L.log("socket", fd, domain, fd, err, "fw", "")
 	if err == nil {
@@ -523,6 +527,10 @@ func Bind(fd int, sa real.Sockaddr) (err error) {
 	}
 	sched.Point("bind", int64(fd))
 	L.use("bind", fd)
+	if e, ok := errnoByName[deviation("bind", fd, 0)]; ok {
+		L.log("bind", fd, 0, -1, e, "fw", real.ErrnoName(e))
+		return e
+	}
 	err = real.Bind(fd, sa)
 	L.log("bind", fd, 0, 0, err, "fw", "")
 	return
@@ -535,6 +543,10 @@ func Listen(fd int, n int) (err error) {
 	}
 	sched.Point("listen", int64(fd))
 	L.use("listen", fd)
+	if e, ok := errnoByName[deviation("listen", fd, 0)]; ok {
+		L.log("listen", fd, n, -1, e, "fw", real.ErrnoName(e))
+		return e
+	}
 	err = real.Listen(fd, n)
 	L.log("listen", fd, n, 0, err, "fw", "")
 	return
